@@ -173,6 +173,7 @@ impl<'a> InteriorNode<'a> {
             "expected BTreeInterior page, got {:?}",
             header.page_type()
         );
+        super::leaf::check_slot_geometry(header, INTERIOR_CONTENT_START, INTERIOR_SLOT_SIZE)?;
         Ok(Self { data })
     }
 
@@ -269,6 +270,7 @@ impl<'a> InteriorNodeMut<'a> {
             "expected BTreeInterior page, got {:?}",
             header.page_type()
         );
+        super::leaf::check_slot_geometry(header, INTERIOR_CONTENT_START, INTERIOR_SLOT_SIZE)?;
         Ok(Self { data })
     }
 
